@@ -53,6 +53,7 @@ PrimOk(ev) ==
   /\ ev.sb = ShiftDef(r, 0 - r[1])                               \* r -= r.begin(): the argument is a value, not the live bound
   /\ ev.ab = ShiftDef(r, r[1])                                   \* r += r.begin()
   /\ ev.ae = ShiftDef(r, r[2])                                   \* r += r.end()
+  /\ ev.dnlen = ev.len /\ ev.dn2len = ev.len                     \* shifting below the origin (unsigned: wrap) keeps the length
   /\ ne => /\ ev.ov = OverlapDef(r, q)
            /\ ev.ct = ContainsDef(r, q)
            /\ ev.cg = ContigDef(r, q)
